@@ -538,7 +538,8 @@ Definition handle_with (h : bhandler) (rk : brule) (m : mresult) (st : bstate) (
       let level := if str_eqb (group_n src m 1) [61%Z] then 1 else 2 in
       Ok (set_tokens st (before ++ [BHeading t level true]), rf, Some (mend m + 1))
     | None =>
-      match bmatch_rules (named [RThematic; RList]) src (s_cursor st) with
+      (* at the nesting limit the list rule is not tried (lists were removed from the rules there) *)
+      match bmatch_rules (named (if Nat.leb (b_max_nested C) (s_depth st) then [RThematic] else [RThematic; RList])) src (s_cursor st) with
       | Some (rk2, m2) => h rk2 m2 st rf
       | None => Ok (st, rf, None)
       end
